@@ -174,7 +174,7 @@ def parts(tier):
 
     def gen_dy():
         for s in sets:
-            variants = [D.labelled(s, "abc"), D.labelled(s, "a")] if len(s) > 1 else [D.labelled(s, "abc")]
+            variants = ([D.labelled(s, "abc"), D.labelled(s, "a")] if len(s) > 1 else [D.labelled(s, "abc")]) + [D.labelled(s, ("", "b")), D.labelled(s, ("a", ""))][:len(s)]  # (also intervals labelled with the empty string)
             if len(s) > 2:
                 variants.append(D.labelled(s, "ab"))
             for e in variants:
